@@ -110,14 +110,18 @@ def check(run, repo):
     m = repo.module(MOD)
     run.explanation = (
         'Table analysis of pmutt/constants.py: every literal of unit_dict, type_dict, R/kb/h/c '
-        'tables, Na, atomic_weight and S_elements is folded from its source token into an exact '
-        'Fraction with the rounding its written digits imply; convert_unit, R, kb, h, c, m_e, m_p, '
+        'tables, Na is folded from its source token into an exact Fraction with the rounding its written digits '
+        'imply; a unit the function derives from other rows before the look-up is read off the public factor-only '
+        'form; atomic_weight and S_elements are read after the module body has been interpreted (literal, later '
+        'updates, helpers and aliases that write to them). convert_unit, R, kb, h, c, m_e, m_p, '
         'P0, T0, V0 and the spectroscopic helpers are interpreted abstractly (table entries kept as '
         'atoms) for EVERY key / pair / triple, and the algebraic relations of the property are '
         'decided exactly (shape: num*U[final]/U[initial]; affine temperature maps composed as '
-        'Fractions; helper inverses as rational functions, element by element on arrays which they must '
-        'leave unmodified; the number zero converts to zero) or within twice the summed literal '
-        'roundings (derived entries and constants).')
+        'Fractions; helper inverses as rational functions; one and the same map for the argument witnesses 1, -7/3, '
+        '1e-30 and 1e30 and the number zero; float and integer arrays with elements of either sign element by '
+        'element, the caller\'s array left unmodified, nothing remembered between calls) or within twice the summed '
+        'literal roundings (derived entries and constants; two spellings of one quantity through different table '
+        'entries are compared on the folded values).')
     run.assumptions = ['literal roundings: half a unit in the last written digit; integer-valued '
                        'mantissas and powers of ten are exact',
                        'agreement with CODATA is not decided, only internal consistency']
@@ -824,11 +828,18 @@ def module_tables(repo, m, names):
     -> {name: {key: Fraction}}"""
     I = Interp(repo)
     fr = xlate.Frame(I, m, {}, None, None)
-    try:
-        fr.exec_block(m.tree.body)
-    except xlate._RaisedExc as e:
-        raise Unsupported('the module body of %s raises %r' % (m.name, e.raised), getattr(e.raised, 'node', None),
-                          m.relpath)
+    for st in m.tree.body:
+        try:
+            fr.exec_stmt(st)
+        except xlate._RaisedExc as e:
+            raise Unsupported('the module body of %s raises %r' % (m.name, e.raised), st, m.relpath)
+        except Unsupported:
+            # a statement outside the interpreted fragment is passed over only if it cannot reach a table: it names
+            # neither a table (under any name bound to it so far) nor a function of this module
+            held = [v_ for k_, v_ in fr.env.items() if k_ in names]
+            reach = set(names) | set(m.functions) | {k_ for k_, v_ in fr.env.items() if any(v_ is h_ for h_ in held)}
+            if any(isinstance(n_, ast.Name) and n_.id in reach for n_ in ast.walk(st)):
+                raise
     out = {}
     for tname in names:
         t = fr.env.get(tname)
